@@ -1359,7 +1359,6 @@ class LangServer:
             # tmp_file.ast.resolve_links(self.obj_tree, self.link_version)
         elif file_obj.preproc:
             file_obj.preprocess(pp_defs=self.pp_defs)
-            self.pp_defs = {**self.pp_defs, **file_obj.pp_defs}
 
     def serve_onOpen(self, request: dict):
         self.serve_onSave(request, did_open=True)
@@ -1437,9 +1436,8 @@ class LangServer:
             ast_new = file_obj.parse(
                 pp_defs=self.pp_defs, include_dirs=self.include_dirs
             )
-            # Add the included read in pp_defs from to the ones specified in the
-            # configuration file
-            self.pp_defs = {**self.pp_defs, **file_obj.pp_defs}
+            # The definitions a file makes stay with the file: merged into the
+            # server-wide ones they would change how it is preprocessed next time
         except:
             log.error("Error while parsing file %s", filepath, exc_info=True)
             return False, "Error during parsing"  # Error during parsing
